@@ -104,6 +104,13 @@ func (t *tStructProto) structUnpack(m erpc.Message) error {
 		return err
 	}
 
+	// The headers arrive with the frame, before the body: apply them first, because
+	// binding the body (UnmarshalBody) is the point where the metadata of a reply is
+	// handed to the waiting call and where the hooks that read the header run.
+	headers := t.tProtocol.GetReadHeaders()
+	m.Status(true).DecodeQuery(goutil.StringToBytes(headers[HeaderStatus]))
+	m.Meta().Parse(headers[HeaderMeta])
+
 	m.UnmarshalBody(nil)
 	s, ok := m.Body().(thrift.TStruct)
 	if !ok {
@@ -116,10 +123,6 @@ func (t *tStructProto) structUnpack(m erpc.Message) error {
 	if err = t.tProtocol.ReadMessageEnd(); err != nil {
 		return err
 	}
-
-	headers := t.tProtocol.GetReadHeaders()
-	m.Status(true).DecodeQuery(goutil.StringToBytes(headers[HeaderStatus]))
-	m.Meta().Parse(headers[HeaderMeta])
 
 	m.SetBodyCodec(codec.ID_THRIFT)
 	return m.SetSize(uint32(t.rwCounter.Readed()))
